@@ -72,6 +72,36 @@ def lazyEntry (step : W → S → W) (detect : W → M) (cA : List Nat) (ws : Li
       getE (multisliceAndDetect (stepB step) (detectB detect) wb (blockPot p (p.configs.getD c [])))
         (measurementIndex (blockPot p (p.configs.getD c [])) 0 e)).map List.flatten
 
+/-! ### batches with two ensemble axes (e.g. a grid scan): a matrix of member waves, chunked along both axes -/
+
+/-- the column blocks of a block of rows: block `j` holds, for every row, the `j`-th chunk of that row -/
+def colBlocks {α : Type} (cY : List Nat) (rows : List (List α)) : List (List (List α)) :=
+  (List.range cY.length).map fun j => rows.map fun row => (splitBy cY row).getD j []
+
+/-- blockwise evaluation of a member-wise function over a matrix: split the rows by `cX`, every row block into column
+blocks by `cY`, apply `f` inside every block, concatenate the blocks of a block-row along the columns and the block-rows
+along the rows (dask's assembly of a 2-d chunked array) -/
+def blockMap2 {α β : Type} (f : α → β) (cX cY : List Nat) (m : List (List α)) : List (List β) :=
+  (splitBy cX m).flatMap fun rb => hcat rb.length ((colBlocks cY rb).map fun cb => cb.map (List.map f))
+
+def stepBB (step : W → S → W) (wss : List (List W)) (s : S) : List (List W) := wss.map fun ws => stepB step ws s
+def detectBB (detect : W → M) (wss : List (List W)) : List (List M) := wss.map (detectB detect)
+
+/-- eager entry for a two-axis batch -/
+def eagerEntry2 (step : W → S → W) (detect : W → M) (wss : List (List W)) (p : Pot S) (c e : Nat) :
+    Option (List (List M)) :=
+  getE (multisliceAndDetect (stepBB step) (detectBB detect) wss p) (measurementIndex p c e)
+
+/-- lazy entry for a two-axis batch: one `multislice_and_detect` per (configuration, row block, column block); the block
+results are assembled like the blocks of a 2-d chunked array (`none` if a block fails or never wrote the entry) -/
+def lazyEntry2 (step : W → S → W) (detect : W → M) (cX cY : List Nat) (wss : List (List W)) (p : Pot S) (c e : Nat) :
+    Option (List (List M)) :=
+  let bp := blockPot p (p.configs.getD c [])
+  ((splitBy cX wss).mapM fun rb =>
+      ((colBlocks cY rb).mapM fun cb =>
+          getE (multisliceAndDetect (stepBB step) (detectBB detect) cb bp) (measurementIndex bp 0 e)).map
+        fun blocks => hcat rb.length blocks).map List.flatten
+
 /-- `MultisliceTransform._default_ensemble_chunks`: one configuration per chunk, the exit-plane axis in one chunk
 (`nens = len(potential.ensemble_shape)`, `nplanes = len(potential.exit_planes)`) -/
 def defaultChunks (nens nplanes : Nat) : List Nat :=
